@@ -10,6 +10,7 @@ import GoNfsd.Lemmas.FsStep
 import GoNfsd.Gen.Announce
 import GoNfsd.Lemmas.Dirty
 import GoNfsd.Lemmas.SizeBound
+import GoNfsd.Lemmas.NameBound
 
 namespace GoNfsd.Props.C19
 open GoNfsd.Model.Fs GoNfsd.Gen.Consts
@@ -176,5 +177,15 @@ example :
       (.setattr (mkFh 2 1) (some MaxFileSize) .dont .dont, {})]).1.get 2).size = MaxFileSize ∧
     ((run (mkfs true 100000) [(.create (mkFh 1 1) [102] 0, { inum := 2, slot := 2 }),
       (.setattr (mkFh 2 1) (some MaxFileSize) .dont .dont, {})]).1.get 2).kind = NF3REG := by decide
+
+/-- NO DIRECTORY EVER HOLDS A NAME LONGER THAN THE ANNOUNCED name_max: in every state reachable from the freshly formatted
+    file system, by any sequence of all procedures with any choices, every slot of every directory carries a name of at most
+    `MAXNAMELEN` = 112 bytes — the value PATHCONF announces with no_trunc (`name_max_exact`) and the capacity of a slot, so
+    `encodeDirEnt` never truncates ("Caller must ensure de.Name fits").  Every path that writes a name goes through
+    `AddName`'s guard: CREATE, MKDIR, SYMLINK and both halves of RENAME.  (Seeded change C19n adds an in-place RENAME path
+    around the guard.) -/
+theorem no_name_ever_exceeds_name_max (u : Bool) (sz : Nat) (ops : List (Op × Choice)) (i k : Nat) (sl : Slot)
+    (h : ((run (mkfs u sz) ops).1.get i).slots[k]? = some sl) : sl.name.length ≤ MAXNAMELEN :=
+  run_short _ ops (mkfs_short u sz) i k sl h
 
 end GoNfsd.Props.C19
